@@ -276,13 +276,15 @@ Paths == DOMAIN tgt \cup Names
 Next ==
   \/ \E fd \in FDs, p \in DOMAIN tgt : tgt[p].kind # "fifo" /\ OpenRd(fd, p, {"O_RDONLY", "O_CLOEXEC"})
   \/ \E fd \in FDs, p \in Names, m \in PermSet : CreateTmp(fd, p, {"O_RDWR", "O_CREAT", "O_EXCL"}, m)
-  \/ \E fd \in FDs, p \in Names : OpenTmpWr(fd, p, {"O_WRONLY", "O_TRUNC"})
+  \/ \E fd \in FDs, t \in tmps : OpenTmpWr(fd, t.path, {"O_WRONLY", "O_TRUNC"})
   \/ \E f \in fdt, n \in 1..MaxLen : WriteFd(f.fd, n)
   \/ \E f \in fdt, m \in PermSet : FchmodFd(f.fd, m)
   \/ \E f \in fdt : FsyncFd(f.fd)
   \/ \E f \in fdt : CloseFd(f.fd)
-  \/ \E p \in Paths, q \in Paths : RenamePath(p, q)
-  \/ \E p \in Paths : UnlinkPath(p)
+  \/ \E t \in tmps, q \in Paths : RenamePath(t.path, q)
+  \/ \E t \in tmps : UnlinkPath(t.path)
+  \/ \E p \in DOMAIN tgt, q \in Names : InPlace /\ RenamePath(p, q)
+  \/ \E p \in DOMAIN tgt : InPlace /\ UnlinkPath(p)
   \/ \E st \in {0, 1} : Exit(st)
   \/ Crash
   \/ \E fd \in FDs, p \in DOMAIN tgt : OpenTgtWr(fd, p, {"O_WRONLY", "O_CREAT", "O_TRUNC"})
